@@ -326,8 +326,12 @@ class World:
             O.sentinel_check(self, kind, how, p)
         if diff:
             self.violate("C13", "restoration", kind, {"tables": ",".join(sorted(diff)), "exit": how}, f"ambient state differs after leaving block: {diff}", p)
-            # repair so that later steps are judged on their own
-            self.restore_ambient(before)
+            # repaired where restoration is the property in focus, so that later steps are judged on their own; under
+            # the other properties the leak stays and its consequences (scales that keep moving, C12) are theirs to see
+            if self.focus("C13"):
+                self.restore_ambient(before)
+            else:
+                self.probe("leaked_ambient_state_left_in_place")
         if exc is not None:
             raise exc
         return kind
@@ -349,6 +353,56 @@ class World:
         from optimum.quanto.library import ops as qops
 
         qops._ext_enabled = snap["_ext_enabled"]
+
+    def op_calib_pair(self, op, p):
+        """Two different Calibration objects entered one inside the other and left in the *wrong* order (outer first),
+        as happens with hand-managed __enter__/__exit__ or an ExitStack unwound by hand: once both are left the
+        registries and the mode stack must be what they were."""
+        from optimum.quanto import Calibration
+
+        if self.depth > 0:
+            return "skipped"
+        O.ensure_sentinel(self)
+        a = Calibration(momentum=op.get("m1", 0.9), streamline=op.get("s1", True))
+        b = Calibration(momentum=op.get("m2", 0.9), streamline=op.get("s2", True))
+        before = R.ambient_snapshot()
+        exc = None
+        exit_failure = None
+        a.__enter__()
+        b.__enter__()
+        self.depth = 2
+        self.nested_calib = True
+        self.cur_calib = (b.momentum, b.streamline)
+        try:
+            try:
+                self.exec_ops(op.get("body", []), p)
+            except (InjectedFault, InjectedInterrupt, WorkloadError) as e:
+                exc = e
+            info = (type(exc), exc, exc.__traceback__) if exc is not None else (None, None, None)
+            try:
+                a.__exit__(*info)  # the outer one first
+                b.__exit__(*info)
+            except Exception as e:
+                exit_failure = e
+        finally:
+            self.depth = 0
+        after = R.ambient_snapshot()
+        self.judged("C13")
+        self.probe("two_contexts_left_in_the_wrong_order")
+        if exit_failure is not None:
+            self.violate("C13", "exit_raises", "calib_pair", {"exc": type(exit_failure).__name__, "at": O.quanto_site(exit_failure)}, f"leaving the two Calibration blocks raised {exit_failure!r}", p)
+        diff = R.ambient_diff(before, after)
+        diff.pop("_ext_enabled", None)
+        how = "normal" if exc is None else ("interrupt" if isinstance(exc, InjectedInterrupt) else "exception")
+        if diff:
+            self.violate("C13", "restoration", "calib_pair", {"tables": ",".join(sorted(diff)), "exit": how}, f"ambient state differs after both blocks were left (outer first): {diff}", p)
+            if self.focus("C13"):
+                self.restore_ambient(before)
+        else:
+            O.sentinel_check(self, "calib_pair", how, p)
+        if exc is not None:
+            raise exc
+        return "ok"
 
     def op_userctx(self, op, p):
         """The caller's own ambient state around a body: global forward (pre-)hooks registered by the user and a
@@ -490,6 +544,9 @@ class World:
         if d is None:
             return "skipped"
         return O.do_refill_forward(self, d, op, p)
+
+    def op_bad_call(self, op, p):
+        return O.do_bad_call(self, self.dep(op) if op.get("dep") is not None else None, op, p)
 
     def op_set_trainable(self, op, p):
         d = self.dep(op)
